@@ -1428,3 +1428,31 @@ Proof. exists [(false, [], true)]. reflexivity. Qed.
 
 Lemma stats_never_raise0 calls : exists s1, stats_run stats_update calls stats0 = Some s1.
 Proof. apply stats_never_raise. split; cbn; lia. Qed.
+
+(* ------------------------------------------------------------------ the frame is the whole packet (wave 13) *)
+
+(* dataOut = header :: payload; stamping touches the header byte only; the peer hands on exactly those bytes *)
+Lemma frame_is_whole_packet u d hdr data :
+  stamp u d (hdr :: data) = stamp_hdr u d hdr :: data
+  /\ length (stamp u d (hdr :: data)) = S (length data)
+  /\ norm (stamp u d (hdr :: data)) = Z.land hdr 243 :: data.
+Proof. repeat split. cbn [stamp norm]. now rewrite stamp_hdr_mask. Qed.
+
+Definition full30 : list Z := map Z.of_nat (seq 1 30).
+
+(* a full-size packet (30 payload bytes) through a lossy start: the peer gets all 31 bytes, once *)
+Lemma full_size_delivered :
+  let w := session 3 (mkPeer false false true [] [] None) [NOk]
+             [Submit 60 full30; Tx Ok []; Tx UpLost []; Tx AckLost []; Tx Ok []; Tx Ok []] in
+  filter nnb (p_rx (w_p w)) = [48 :: full30] /\ length (48 :: full30) = 31%nat /\ up_pending w = [].
+Proof. vm_compute. repeat split. Qed.
+
+(* cutting the FRAME at MAX_DATA_SIZE = 30 bytes (the payload limit applied to header + payload) loses the last
+   payload byte of a full-size packet *)
+Lemma truncated_frame_refuted :
+  exists hdr data, length data = 30%nat /\ norm (firstn 30 (hdr :: data)) <> norm (hdr :: data)
+                   /\ forall data', (length data' <= 29)%nat -> firstn 30 (hdr :: data') = hdr :: data'.
+Proof.
+  exists 60, full30. split; [reflexivity|]. split; [vm_compute; discriminate|].
+  intros data' H. apply firstn_all2. cbn [length]. lia.
+Qed.
